@@ -4,6 +4,7 @@ CONSTANTS
   Msgs <- SmallMsgs
   MaxMsgs = 1
   LenMode = "bytes"
+  IdDecode = "strict"
   Variants <- VariantsDef
   ChunkMax = 1
   AllCuts = FALSE
